@@ -225,6 +225,7 @@ def parse_interface_type(
             {
                 f.type_condition.name.value
                 for f in inline_fragments + fragments_on_subtypes
+                if f.type_condition
             }
         )
         for fragment_type_name in fragments_types_names:
